@@ -28,6 +28,10 @@ def run(tier, seed):
         for t in tags:
             res.violation(t, r.get("api", "?") + ":" + (r.get("rust") or "IDLValue"), {"api": r.get("api"), "rust": r.get("rust"), "types": r.get("types"), "blob_hex": bytes(r.get("blob", [])).hex(),
                                                     "cost": [r["big"].get("cd"), r["big"].get("cs")], "runs": [[x.get("d"), x.get("s"), "ok" if "ok" in x else ("quota" if "quota" in x else "err"), x.get("cd"), x.get("cs")] for x in r.get("runs", [])]}, "")
+    # the quota as session state: remaining decoding quota after every call of a step-wise session never goes up
+    from props import c02
+    nsess = c02.session_stage(res, wd, tier, seed, prop="C07")
+    res.cov["parts"]["sessions_quota_monotone"] = nsess
     res.rule = ("design: MC_Quota model-checks monotonicity, cost independence and no-refund for every charge sequence and quota pair of the bounded universe; implementation: %d seeded honest messages - untyped "
                 "decoding at related expected types (surplus/missing arguments and fields, opt back-tracking) and native decoding of corpus values with 0-2 surplus arguments - decoded unmetered, measured (cost via compute_cost), "
                 "and under the quota grid {0, c-1, c, c+1, 2c+7}^2; Trace_Quota.tla checks result invariance, monotonicity on the grid, cost independence, cost >= number of values, surplus arguments charged to the skipping "
